@@ -10,7 +10,13 @@ recorded per run and replayed through the Lean models:
     task reads must be the head of the model's shared inbox, and the outcome per caller must be the model's.
 
 Every caller must end with a reply that is not foreign to its request BYTES (Spec/Reply.lean) or with an error, and
-nobody may be left waiting forever."""
+nobody may be left waiting forever.
+
+Callers use the whole public surface: read_data_by_identifier, send_raw, ping(), tester_present() and every other public
+method with a `suppress_response` option (option off and on; arguments synthesised from the signature, request bytes learnt
+from a dry run).  Connection attempts of the scripted wire follow a script and then a default, so the target can refuse k
+times and then accept, or stay away for good; BaseTransport.reconnect(timeout) itself is also compared with
+Model/TransportReconnect.lean on every short outcome stream."""
 import asyncio
 import itertools
 from collections import deque
@@ -40,6 +46,12 @@ ASSUMPTIONS = [
     "through another name, by getattr or from another module is outside the table (the dynamic tie still sees its effect)",
     "the transport's own mutex (BaseTransport.reconnect / request) is only taken inside the client lock; the tie runs the real BaseTransport.reconnect, "
     "the model has one lock",
+    "callers reach the client through its public coroutine methods only (typed services with their options incl. suppress_response, ping(), send_raw(), "
+    "reconnect(), wait_for_ecu(), start / stop of the worker); arguments of the sub-function services are synthesised from the signatures, a method "
+    "that refuses them before sending anything is not a user of the client in that case",
+    "an unreachable target is a connect() that raises ConnectionRefusedError (also TimeoutError / OSError) on the scripted wire; one connection attempt "
+    "takes 50 virtual ms; 'never returns' means: not within 120 virtual seconds after the call (the harness cap), which for the modelled loop "
+    "(reconnect_bounded: at most timeout/100 ms + 1 attempts) is far beyond every deadline used",
     "the scripted wire keeps its inbox across reconnect() (a late reply may arrive on the new connection): the adversarial choice; the model's network "
     "may deliver any message at any time anyway",
 ]
@@ -1337,7 +1349,13 @@ MANIFEST = {
                    "wait_for_ecu()) under virtual time; every completed await point must be the next step of that task's program in the model "
                    "(requestX over the results the task observed), every message read must be the head of the model's inbox, the outcome per "
                    "caller must be the model's; independently of the model each caller must get a reply genuine to its request BYTES or an error, "
-                   "no task may transmit while another task's exchange is open on the wire, and nobody may stay blocked."),
+                   "no task may transmit while another task's exchange is open on the wire, and nobody may stay blocked. The callers cover the "
+                   "public surface: tester_present / ping and every public method with a suppress_response option (off and on) next to an exchange "
+                   "in flight (incl. a ResponsePending extension). Reconnects run against a target that refuses k times and then accepts or stays "
+                   "away for good (explicit reconnect() and the automatic reconnect of a retried request, with a second user and the worker); "
+                   "Model/TransportReconnect.lean models BaseTransport.reconnect(timeout) - one attempt without a timeout, a 100 ms retry loop under a "
+                   "deadline - with reconnect_without_timeout_single_attempt, reconnect_bounded, reconnect_unreachable_target_fails for every stream "
+                   "of connection outcomes, compared with the real method on all outcome streams of length <= 3 x 6 timeouts."),
     "level_note": ("Partial: the theorems hold for every schedule, the tie only observes the schedules the harness provokes; cancellation is atomic "
                    "in the model. Trusted: Lean kernel, asyncio.Lock / Task.cancel semantics (re-checked by the replay), the harness "
                    "instrumentation (lock subclass, scripted wire with one inbox, patched asyncio.sleep / create_task / stop_cyclic_tester_present)."),
